@@ -23,6 +23,11 @@ def parrots(ctx):
     return evs[0]["ids"]
 
 
+def compalgs(ctx):
+    """parrot -> number of certificate compression algorithms it advertises"""
+    return ctx.drv("parrots", {}, prog=PROG)[0]["compalgs"]
+
+
 def mkpki(ctx):
     return ctx.drv("mkpki", {}, prog=PROG)[0]["pki"]
 
@@ -52,13 +57,15 @@ def flights_of(caps, side, first=None):
     out = []
     for name, (a, b) in caps.items():
         o = "c" if side == "s" else "s"
-        out.append({"case": name, "side": side, "msgs": a[side], "msgs2": b[side], "other": a[o], "from": (first or {}).get(name, 1)})
+        inner = a.get("s_inner", []) if side == "s" else []
+        inner = (inner + [[]] * len(a[side]))[:len(a[side])]
+        out.append({"case": name, "side": side, "msgs": a[side], "msgs2": b[side], "other": a[o], "from": (first or {}).get(name, 1), "inner": inner})
     return out
 
 
 def rec_flights(caps):
     """MC input for C07: the first record a client wrote (a ClientHello record)"""
-    return [{"case": name, "side": "rec", "msgs": [a["rec0"]], "msgs2": [a["rec0"]], "other": [], "from": 1} for name, (a, b) in caps.items()]
+    return [{"case": name, "side": "rec", "msgs": [a["rec0"]], "msgs2": [a["rec0"]], "other": [], "from": 1, "inner": [[]]} for name, (a, b) in caps.items()]
 
 
 # ---------------------------------------------------------------- TLC: enumeration
@@ -162,7 +169,7 @@ def conn_rows(scn_by_sid, evs, t):
         s = scn_by_sid[e["sid"]]
         rows.append({"t": t, "sid": e["sid"], "case": s["case"], "side": s["side"], "msg": s["msg"], "op": s["op"], "cls": s["cls"],
                      "path": s["path"], "st": s["st"], "mkind": s["mkind"], "mode": s["mode"], "sp": s["sp"],
-                     "skey": "%s#%d" % (s["case"], s["msg"]), "ckey": "%s#%s#%d" % (s["case"], s["side"], s["msg"]),
+                     "skey": "%s#%d%s" % (s["case"], s["msg"], "#i" if s.get("inner") else ""), "ckey": "%s#%s#%d" % (s["case"], s["side"], s["msg"]),
                      "applied": e["applied"], "fit": e["fit"], "orig": e["orig"], "orig_len": e["orig_len"], "orig_sum": e["orig_sum"],
                      "mut_len": e["mut_len"], "mut_sum": e["mut_sum"], "client": _side_row(e["client"]), "server": _side_row(e["server"]),
                      "deadline_ms": e["deadline_ms"], "alloc_kb": e["alloc_kb"], "_ev": e})
@@ -174,7 +181,8 @@ def strip(rows):
 
 
 def harness_scn(s):
-    return {"sid": s["sid"], "case": s["case"], "side": s["side"], "msg": s["msg"], "mode": s["mode"], "sp": s["sp"], "measure": s["measure"]}
+    return {"sid": s["sid"], "case": s["case"], "side": s["side"], "msg": s["msg"], "mode": s["mode"], "sp": s["sp"], "measure": s["measure"],
+            "inner": bool(s.get("inner"))}
 
 
 def replace_caps(caps, side):
@@ -231,7 +239,7 @@ def _connection_batch(ctx, pid, side, cases, classes, inserts, deadline_ms, btag
         if len(scn) < 2:
             raise vlib.Machinery("replay: TLC did not enumerate the recorded scenario again")
     by_sid = {s["sid"]: s for s in scn}
-    skels = {"%s#%d" % (p["case"], p["msg"]): p["skel"] for p in pos}
+    skels = {"%s#%d%s" % (p["case"], p["msg"], "#i" if p.get("inner") else ""): p["skel"] for p in pos}
     unmutable = sorted("%s#%d" % (p["case"], p["msg"]) for p in pos if not p["mutable"] and not p["covered"])
     rcaps = replace_caps(caps, side)
     hcaps = {name: {"c": a["c"], "s": a["s"]} for name, (a, b) in caps.items()} if side == "c" else {}
